@@ -21,6 +21,10 @@ pub struct PanicInfo {
 
 static INSTALL: Once = Once::new();
 
+/// Last panic on *any* thread: the system under test may panic on a pool
+/// worker and re-raise on the calling thread, where the location is lost.
+static GLOBAL_LAST: std::sync::Mutex<Option<PanicInfo>> = std::sync::Mutex::new(None);
+
 pub fn install_hook() {
     INSTALL.call_once(|| {
         panic::set_hook(Box::new(|info| {
@@ -35,7 +39,13 @@ pub fn install_hook() {
                 Some(l) => (format!("{}:{}", l.file(), l.line()), l.file().to_string()),
                 None => ("?".to_string(), "?".to_string()),
             };
-            LAST.with(|l| *l.borrow_mut() = Some(PanicInfo { message, location, file }));
+            let info = PanicInfo { message, location, file };
+            if let Ok(mut g) = GLOBAL_LAST.lock() {
+                if g.is_none() {
+                    *g = Some(info.clone());
+                }
+            }
+            LAST.with(|l| *l.borrow_mut() = Some(info));
         }));
     });
 }
@@ -44,10 +54,14 @@ pub fn install_hook() {
 pub fn catch<T>(f: impl FnOnce() -> T) -> Result<T, PanicInfo> {
     install_hook();
     LAST.with(|l| *l.borrow_mut() = None);
+    if let Ok(mut g) = GLOBAL_LAST.lock() {
+        *g = None;
+    }
     match panic::catch_unwind(AssertUnwindSafe(f)) {
         Ok(v) => Ok(v),
         Err(payload) => {
             let info = LAST.with(|l| l.borrow_mut().take());
+            let info = info.or_else(|| GLOBAL_LAST.lock().ok().and_then(|mut g| g.take()));
             Err(info.unwrap_or_else(|| {
                 let message = if let Some(s) = payload.downcast_ref::<&str>() {
                     s.to_string()
